@@ -308,6 +308,13 @@ func genC03(r *vh.Runner) {
 	nh := r.Pick(6, 100)
 	for i := 0; i < nh; i++ {
 		r.Case(fmt.Sprintf("handshake-limits-and-later-traffic/%d", i), map[string]any{"rep": i}, func(c *vh.Case) {
+			// a receive loop that spins on an expired socket deadline never
+			// lets a bubble's clock move; the driver re-executes such a
+			// stalled case in real time, where the lost message is seen
+			if os.Getenv("VERIF_REALTIME") == "1" {
+				hsLimitsRun(r, c, i)
+				return
+			}
 			c.Bubble(func() { hsLimitsRun(r, c, i) })
 		})
 	}
@@ -1392,7 +1399,11 @@ func hsLimitsRun(r *vh.Runner, c *vh.Case, i int) {
 		return
 	}
 	buf := make([]byte, 4096)
-	for round, wait := range []time.Duration{0, 5 * time.Second, time.Minute} {
+	waits := []time.Duration{0, 5 * time.Second, time.Minute}
+	if os.Getenv("VERIF_REALTIME") == "1" {
+		waits = waits[:2]
+	}
+	for round, wait := range waits {
 		time.Sleep(wait)
 		for dir, pair := range [][2]mconn{{cl, h}, {h, cl}} {
 			msg := build(r.Seed, msgID{0, byte(dir), 0, uint32(round + 1)}, hdrLen+20)
